@@ -2,7 +2,10 @@
 //
 // Protocol lines (all byte strings hex):
 //
-//	estep <cap> <src> <atEOF>  -> <nSrc> <err> <out>     one Transform call of Escape
+//	estepok <cap> <src> <atEOF> <nSrc> <err> <out> -> ok | bad:<why>   one observed Transform call of Escape,
+//	ustepok ...                                                       judged against the contract StepOK (a relation)
+//	espanok / uspanok <src> <atEOF> <n> <err>     -> ok | bad:<why>   one observed Span call
+//	estep <cap> <src> <atEOF>  -> <nSrc> <err> <out>     (only for calls that panic / return a foreign error)
 //	ustep <cap> <src> <atEOF>  -> <nSrc> <err> <out>     one Transform call of Unescape
 //	espan <src> <atEOF>        -> <n> <err>
 //	uspan <src> <atEOF>        -> <n> <err>
@@ -383,6 +386,33 @@ func (c *ctx) whole(s []byte, sizes []int, cap int, class string) {
 	}
 }
 
+var probeRests = []string{"", "2", "20", "0", "5c", "5C", "F", `\`, `\20`, "a", " ", "3a"}
+
+// contract judges one observed Transform call against the contract of the theorems (StepOK):
+// the bytes produced are the beginning of f(whole input) and the unconsumed rest continues it,
+// for the actual input and, when not at EOF, for every continuation that can change the
+// verdict.  Independent of the model (own reference functions).
+func contract(ref func([]byte) []byte, cap int, src []byte, atEOF bool, nSrc int, out []byte) string {
+	if nSrc < 0 || nSrc > len(src) {
+		return fmt.Sprintf("nSrc = %d of %d", nSrc, len(src))
+	}
+	if len(out) > cap {
+		return "more output than capacity"
+	}
+	rests := probeRests
+	if atEOF {
+		rests = probeRests[:1]
+	}
+	for _, rest := range rests {
+		whole := ref(append(append([]byte(nil), src...), rest...))
+		tail := ref(append(append([]byte(nil), src[nSrc:]...), rest...))
+		if !bytes.Equal(append(append([]byte(nil), out...), tail...), whole) {
+			return fmt.Sprintf("followed by %q: produced %q + f(rest) %q, f(whole) = %q", rest, out, tail, whole)
+		}
+	}
+	return ""
+}
+
 // steps compares single Transform / Span calls.
 func (c *ctx) steps(s []byte, caps []int) {
 	r := c.r
@@ -394,8 +424,23 @@ func (c *ctx) steps(s []byte, caps []int) {
 		}{{"e", jid.Escape}, {"u", jid.Unescape}} {
 			for _, cap := range caps {
 				res := step(tr.t, cap, s, atEOF)
+				// a relation (round E): the observed call travels with the line and the driver
+				// judges it against the contract StepOK instead of predicting one result
 				line := fmt.Sprintf("%sstep %d %s %s", tr.op, cap, hs, common.B(atEOF))
-				r.Line(line, res.obs())
+				if res.panicked != "" || strings.HasPrefix(res.err, "other:") || res.nSrc < 0 {
+					r.Line(line, res.obs())
+				} else {
+					line = fmt.Sprintf("%sstepok %d %s %s %s", tr.op, cap, hs, common.B(atEOF), res.obs())
+					r.Line(line, "ok")
+					ref := refEscape
+					if tr.op == "u" {
+						ref = refUnescape
+					}
+					if bad := contract(ref, cap, s, atEOF, res.nSrc, res.out); bad != "" {
+						r.Fail("chunk-independent", tr.op+"step/contract", []string{r.Prop + " " + line},
+							fmt.Sprintf("Transform(cap %d, %q, atEOF=%v) = (%d, %s, %q): %s", cap, s, atEOF, res.nSrc, res.err, res.out, bad))
+					}
+				}
 				r.Case(line, res.err == "nil" || len(res.out) > 0, "step-"+res.err)
 				if res.panicked != "" {
 					r.Fail("total", tr.op+"step", []string{r.Prop + " " + line}, "panic: "+res.panicked)
@@ -413,8 +458,10 @@ func (c *ctx) steps(s []byte, caps []int) {
 			if n < 0 {
 				r.Line(line, "PANIC")
 				r.Fail("total", tr.op+"span", []string{r.Prop + " " + line}, err.Error())
-			} else {
+			} else if strings.HasPrefix(errName(err), "other:") {
 				r.Line(line, fmt.Sprintf("%d %s", n, errName(err)))
+			} else {
+				r.Line(fmt.Sprintf("%sspanok %s %s %d %s", tr.op, hs, common.B(atEOF), n, errName(err)), "ok")
 			}
 		}
 	}
@@ -480,7 +527,7 @@ func Run(r *common.Run) error {
 			if len(f) < 3 || f[0] != "C16" {
 				continue
 			}
-			if k := map[string]int{"estr": 2, "ustr": 2, "chain": 2, "espan": 2, "uspan": 2, "estep": 3, "ustep": 3}[f[1]]; k > 0 && k < len(f) {
+			if k := map[string]int{"estr": 2, "ustr": 2, "chain": 2, "espan": 2, "uspan": 2, "estep": 3, "ustep": 3, "espanok": 2, "uspanok": 2, "estepok": 3, "ustepok": 3}[f[1]]; k > 0 && k < len(f) {
 				if b, err := common.UnHex(f[k]); err == nil && len(replayInputs) < 16 {
 					replayInputs = append(replayInputs, b)
 				}
@@ -493,11 +540,11 @@ func Run(r *common.Run) error {
 						c.whole(s, sz, cap, "replay")
 					}
 				}
-			case "estep", "ustep":
+			case "estep", "ustep", "estepok", "ustepok":
 				s, _ := common.UnHex(f[3])
 				cap, _ := strconv.Atoi(f[2])
 				c.steps(s, []int{cap})
-			case "espan", "uspan":
+			case "espan", "uspan", "espanok", "uspanok":
 				s, _ := common.UnHex(f[2])
 				c.steps(s, []int{4})
 			}
@@ -657,6 +704,43 @@ func Facts(repo string) (string, error) {
 	} else {
 		fmt.Fprintf(&sb, "/-- every pair (a,b) for which the real `jid.Unescape` rewrites `\\\\ab`, with the byte produced\n(all 65536 pairs evaluated) -/\ndef unescapeTable : Option (List (UInt8 × UInt8 × UInt8)) := some [\n  %s]\n", strings.Join(tl, ",\n  "))
 	}
+	// round E (review C16-3): the two tables hold at offset 0 of a one-escape string.  Probe them
+	// behind prefixes as well (ordinary bytes, after a previous escape, after an incomplete
+	// escape): the transform of prefix+item must be transform(prefix) followed by the table's
+	// answer for the item.  Count of items for which it is not, per prefix.
+	offs := func(t jid.Transformer, prefixes []string, items func(f func(item []byte))) string {
+		var el []string
+		for _, p := range prefixes {
+			pre, err := safe(func() ([]byte, error) { return t.Bytes([]byte(p)), nil })
+			if err != nil {
+				return "none"
+			}
+			n := 0
+			items(func(item []byte) {
+				alone, err1 := safe(func() ([]byte, error) { return t.Bytes(append([]byte(nil), item...)), nil })
+				both, err2 := safe(func() ([]byte, error) { return t.Bytes(append([]byte(p), item...)), nil })
+				if err1 != nil || err2 != nil || !bytes.Equal(both, append(append([]byte(nil), pre...), alone...)) {
+					n++
+				}
+			})
+			el = append(el, fmt.Sprint(n))
+		}
+		return "some [" + strings.Join(el, ", ") + "]"
+	}
+	fmt.Fprintf(&sb, "\n/-- for the prefixes \"x\", \"xx\", \" x\", \"a b:\": number of bytes c for which Escape(prefix+c) is not Escape(prefix) followed by Escape(c) -/\ndef escapeOffsets : Option (List Nat) := %s\n",
+		offs(jid.Escape, []string{"x", "xx", " x", "a b:"}, func(f func([]byte)) {
+			for c := 0; c < 256; c++ {
+				f([]byte{byte(c)})
+			}
+		}))
+	fmt.Fprintf(&sb, "\n/-- for the prefixes \"x\", \"xx\", \"\\20\", \"\\\", \"\\2\", \"a\\3a\": number of pairs (a,b) for which Unescape(prefix+\\ab) is not Unescape(prefix) followed by Unescape(\\ab) -/\ndef unescapeOffsets : Option (List Nat) := %s\n",
+		offs(jid.Unescape, []string{"x", "xx", `\20`, `\`, `\2`, `a\3a`}, func(f func([]byte)) {
+			for a := 0; a < 256; a++ {
+				for b := 0; b < 256; b++ {
+					f([]byte{'\\', byte(a), byte(b)})
+				}
+			}
+		}))
 	we, be, ae, me := stateWrites(jid.Escape)
 	wu, bu, au, mu := stateWrites(jid.Unescape)
 	fmt.Fprintf(&sb, "\n/-- 0 = a battery of calls through every interface left everything reachable from the package-level\nvalue unchanged; [jid.Escape, jid.Unescape].  Reachable plain data: %d and %d bytes. -/\n", me, mu)
